@@ -65,6 +65,8 @@ impl Fault {
 pub fn ip_offset(frame: &[u8]) -> usize {
     if frame.len() > 14 && ((frame[12] == 0x08 && frame[13] == 0x00) || (frame[12] == 0x86 && frame[13] == 0xdd)) {
         14
+    } else if frame.len() > 18 && matches!((frame[12], frame[13]), (0x81, 0x00) | (0x88, 0xa8) | (0x91, 0x00)) && ((frame[16] == 0x08 && frame[17] == 0x00) || (frame[16] == 0x86 && frame[17] == 0xdd)) {
+        18
     } else if frame.len() > 4 && (frame[0] >> 4 == 4 || frame[0] >> 4 == 6) {
         0
     } else {
